@@ -1,22 +1,22 @@
 #!/bin/bash
 # usage: tools/seedstore.sh <ID> [name]  — stores a confirmed seeded change under /verif/seeded/<name>/
 set -eu
-id="$1"; name="${2:-$id}"; out="/tmp/seed/$id-out"; dst="/verif/seeded/$name"
+id="$1"; name="${2:-$id}"; out="${3:-/tmp/seed/$id-out}"; wt="${4:-/tmp/seed/$id}"; dst="/verif/seeded/$name"
 grep -q "verdict=keep" "$out/verify.out" || { echo "not confirmed: $(cat $out/verify.out)"; exit 1; }
 mkdir -p "$dst"
 cp "$out/patch.diff" "$dst/patch.diff"
 if [ -d "$out/demo" ]; then cp -r "$out/demo" "$dst/demo"; fi
 [ -f "$out/demo_test.go" ] && cp "$out/demo_test.go" "$dst/demo_test.go.txt"
-python3 - "$id" "$out" "$dst" <<'PY'
+python3 - "$id" "$out" "$dst" "$wt" <<'PY'
 import json,sys,subprocess
-id,out,dst=sys.argv[1:4]
+id,out,dst,wt=sys.argv[1:5]
 try: m=json.load(open(out+"/meta.json"))
 except Exception as e: m={"property":id,"meta_parse_error":str(e)}
-base=subprocess.run(["git","-C","/tmp/seed/"+id,"rev-parse","--short","HEAD"],capture_output=True,text=True).stdout.strip()
+base=subprocess.run(["git","-C",wt,"rev-parse","--short","HEAD"],capture_output=True,text=True).stdout.strip()
 keep={"property":id,"summary":m.get("summary"),"needs":m.get("needs"),"files_changed":m.get("files_changed"),
  "author":"sub-agent given only the property text and a scratch worktree","author_commands":m.get("commands_run"),
  "base_commit":base,
- "confirmed_by":"tools/seedverify.sh "+id+" (scratch worktree /tmp/seed/"+id+": reset tracked files, git apply patch.diff, go build ./..., demonstration test must FAIL, pinned suite `go test -json -vet=off -count=1 ./...` compared with BASELINE stable_pass must miss nothing (timing-sensitive tests re-run alone), git apply -R, demonstration must PASS)",
+ "confirmed_by":"tools/seedverify.sh "+id+" (scratch worktree "+wt+": reset tracked files, git apply patch.diff, go build ./..., demonstration test must FAIL, pinned suite `go test -json -vet=off -count=1 ./...` compared with BASELINE stable_pass must miss nothing (timing-sensitive tests re-run alone), git apply -R, demonstration must PASS)",
  "confirmation":open(out+"/verify.out").read().strip(),
  "demonstration":"demo_test.go.txt (place as zz_seed_demo_test.go in the package named by its package clause / see author_commands)"}
 json.dump(keep,open(dst+"/meta.json","w"),indent=1)
